@@ -296,7 +296,10 @@ Superset(c, rp, rt, lines) ==
             IF DistinctValues(c)
             THEN LET kp == ValueRank(c, At(rp, cell)) IN
                  (kp > 0 /\ (Areal(c.geoms[kp]) # lines)) => ValueRank(c, At(rt, cell)) >= kp
-            ELSE (At(rp, cell) # FillOf(c) /\ ((\A k \in 1..NG(c) : Areal(c.geoms[k])) # lines)) => At(rt, cell) # FillOf(c)
+            \* values not all distinct: "marked" = "differs from the fill", which is sound only when no geometry carries the fill
+            \* value itself (a later geometry painted WITH the fill legitimately un-marks more cells under all_touched)
+            ELSE (\A k \in 1..NG(c) : Val(c, k) # FillOf(c)) =>
+                    ((At(rp, cell) # FillOf(c) /\ ((\A k \in 1..NG(c) : Areal(c.geoms[k])) # lines)) => At(rt, cell) # FillOf(c))
 
 \* the clauses an observation fails (status tables computed once)
 FailingClauses(o) ==
